@@ -423,10 +423,16 @@ def dump(roots: typing.List[str], langs: typing.List[str]) -> dict:
     return json.loads(p.stdout[p.stdout.index('C16DUMP') + 7:])
 
 
+def language_packages() -> typing.List[str]:
+    """every language package of /repo (js has no template package but registers conventional methods)"""
+    base = os.path.join(gen.REPO, 'src', 'nunavut', 'lang')
+    return sorted(l for l in os.listdir(base) if not l.startswith('_') and os.path.exists(os.path.join(base, l, '__init__.py')))
+
+
 def fallback_data() -> dict:
     """what the check's falsifier needs when the translator itself failed closed: only the runtime dump (no ast reading)"""
     tpl = builtin_templates()
-    langs = [l for l in tpl if os.path.exists(os.path.join(gen.REPO, 'src', 'nunavut', 'lang', l, '__init__.py'))]
+    langs = language_packages()
     d = dump(['SerializableType', 'Attribute'], langs)
     d['roots_order'] = ['SerializableType', 'Attribute']
     d['templates'] = tpl
@@ -441,7 +447,7 @@ def data() -> dict:
     ns, nm = reserved_sets(ee)
     shape = init_shape(ee, {'RESERVED_GLOBAL_NAMESPACES': ns, 'RESERVED_GLOBAL_NAMES': nm})
     tpl = builtin_templates()
-    langs = [l for l in tpl if os.path.exists(os.path.join(gen.REPO, 'src', 'nunavut', 'lang', l, '__init__.py'))]
+    langs = language_packages()
     d = dump(roots, langs)
     if d['dup_names']:
         raise Unsupported('two pydsdl classes share a __name__')
@@ -454,7 +460,7 @@ def data() -> dict:
               'init_written': shape['written'], 'gate_reserved': shape['gate_reserved'],
               'gate_checks_existing': shape['gate_checks_existing'], 'gate_refs': shape['gate_refs'],
               'field_is_instance': inst_body, 'template_suffix': template_suffix(),
-              'index_top_level_only': loader_shape() == 'top'})
+              'index_top_level_only': loader_shape() in ('top', 'top_any'), 'chain_ends_at_any': loader_shape() == 'top_any'})
     return d
 
 
@@ -501,6 +507,8 @@ def render(d: dict) -> str:
     L.append('Definition g_template_suffix : str := %s. (* TEMPLATE_SUFFIX = %r *)\n' % (coq_str(d['template_suffix']), d['template_suffix']))
     L.append('(* which pinned shape type_to_template has: true = only templates directly under a templates directory are indexed *)')
     L.append('Definition g_index_top_level_only : bool := %s.\n' % ('true' if d['index_top_level_only'] else 'false'))
+    L.append('(* which pinned shape _type_to_template_internal has: true = the bases of pydsdl.Any are not searched *)')
+    L.append('Definition g_chain_ends_at_any : bool := %s.\n' % ('true' if d['chain_ends_at_any'] else 'false'))
     L.append('(* names in a fresh CodeGenEnvironment per target language (before DSDL tests and user additions) *)')
     for kind in ('tests', 'filters', 'globals'):
         L.append('Definition g_env_%s : list (str * list str) :=\n  [' % kind + ';\n   '.join(
@@ -533,25 +541,56 @@ PIN_LOADER = [('src/nunavut/jinja/loaders.py', 'DSDLTemplateLoader.__init__'),
               ('src/nunavut/jinja/__init__.py', 'DSDLCodeGenerator.filter_type_to_template')]
 PIN_ENV = [('src/nunavut/jinja/environment.py', 'CodeGenEnvironment._add_to_environment'),
            ('src/nunavut/jinja/environment.py', 'CodeGenEnvironment.add_test'),
-           ('src/nunavut/jinja/environment.py', 'CodeGenEnvironment._add_each_to_environment')]
+           ('src/nunavut/jinja/environment.py', 'CodeGenEnvironment._add_each_to_environment'),
+           ('src/nunavut/jinja/environment.py', 'CodeGenEnvironment._add_conventional_method_to_environment'),
+           ('src/nunavut/jinja/environment.py', 'CodeGenEnvironment._resolve_collection'),
+           ('src/nunavut/jinja/environment.py', 'CodeGenEnvironment._add_support_from_language_module_to_environment'),
+           ('src/nunavut/jinja/environment.py', 'CodeGenEnvironment.add_conventional_methods_to_environment'),
+           ('src/nunavut/jinja/environment.py', 'CodeGenEnvironment._update_language_support'),
+           ('src/nunavut/jinja/environment.py', 'CodeGenEnvironment.update_nunavut_globals')]
 
 
 PIN_LOADER_TOP = PIN_LOADER + [('src/nunavut/jinja/loaders.py', 'DSDLTemplateLoader._type_templates')]
 
 
+LOADER_METHODS = {'all': ['__init__', '_filter_template_list_by_suffix', '_type_to_template_internal', 'get_source', 'get_template_sets',
+                          'get_templates', 'list_templates', 'type_to_template']}
+LOADER_METHODS['top'] = sorted(LOADER_METHODS['all'] + ['_type_templates'])
+LOADER_METHODS['top_any'] = LOADER_METHODS['top']
+
+
+def loader_methods() -> typing.List[str]:
+    """names of everything DSDLTemplateLoader defines or assigns in its class body (an added `load`/`get_source` alias would bypass the model)"""
+    mod = gen.parse_repo('src/nunavut/jinja/loaders.py')
+    cls = next(n for n in mod.body if isinstance(n, ast.ClassDef) and n.name == 'DSDLTemplateLoader')
+    if [ast.dump(b) for b in cls.bases] != [ast.dump(ast.Name(id='BaseLoader', ctx=ast.Load()))]:
+        raise Unsupported('DSDLTemplateLoader no longer derives from BaseLoader only')
+    names = []
+    for n in cls.body:
+        if isinstance(n, (ast.FunctionDef, ast.AsyncFunctionDef, ast.ClassDef)):
+            names.append(n.name)
+        elif isinstance(n, (ast.Assign, ast.AnnAssign, ast.AugAssign)):
+            names += [t.id for t in ast.walk(n) if isinstance(t, ast.Name) and isinstance(t.ctx, ast.Store)]
+        elif not (isinstance(n, ast.Expr) and isinstance(n.value, ast.Constant)):
+            raise Unsupported('unexpected statement in the body of DSDLTemplateLoader')
+    return sorted(names)
+
+
 def loader_shape() -> typing.Optional[str]:
-    """which of the two shapes the hand model of the loader knows the code has:
-    'all'  = type_to_template indexes every listed template by its stem (sub-directories included; F-LOOKUP-SUBDIR-NAME),
-    'top'  = only templates directly under a templates directory (`_type_templates`, design_notes/C16_subdir_name_fix.patch),
-    None   = neither (fail closed)"""
+    """which of the shapes the hand model of the loader knows the code has:
+    'all'     = type_to_template indexes every listed template by its stem (sub-directories included; F-LOOKUP-SUBDIR-NAME),
+    'top'     = only templates directly under a templates directory (`_type_templates`, fix af716bd),
+    'top_any' = 'top' + the walk does not go beyond pydsdl.Any (design_notes/C16_chain_ends_at_any_fix.patch),
+    None      = none of them, or the class has other members than the model knows (fail closed)"""
     from . import shape_pin
-    for shape, name, targets in (('all', 'c16_loader', PIN_LOADER), ('top', 'c16_loader_toplevel', PIN_LOADER_TOP)):
+    for shape, name, targets in (('all', 'c16_loader', PIN_LOADER), ('top', 'c16_loader_toplevel', PIN_LOADER_TOP),
+                                 ('top_any', 'c16_loader_toplevel_any', PIN_LOADER_TOP)):
         try:
             cur = '\n'.join('## %s:%s\n%s' % (p, q, shape_pin.normalized_dump(p, q)) for p, q in targets) + '\n'
             with open(os.path.join(shape_pin.PINS, name + '.txt'), encoding='utf-8') as f:
                 if f.read() == cur:
-                    return shape
-        except (OSError, KeyError, SyntaxError, AssertionError):
+                    return shape if loader_methods() == LOADER_METHODS[shape] else None
+        except (OSError, KeyError, SyntaxError, AssertionError, StopIteration, Unsupported):
             continue
     return None
 
@@ -572,4 +611,16 @@ def pin_c16_env():
     return shape_pin.check_pin('c16_env', PIN_ENV)
 
 
-GENERATORS = {'lookup': gen_lookup, 'pin_c16_loader': pin_c16_loader, 'pin_c16_env': pin_c16_env}
+PIN_WIRING = [('src/nunavut/jinja/__init__.py', 'CodeGenerator.__init__'),
+              ('src/nunavut/jinja/__init__.py', 'DSDLCodeGenerator.__init__'),
+              ('src/nunavut/jinja/__init__.py', 'DSDLCodeGenerator.generate_all'),
+              ('src/nunavut/jinja/__init__.py', 'DSDLCodeGenerator._generate_type'),
+              ('src/nunavut/jinja/__init__.py', 'DSDLCodeGenerator._create_all_dsdl_tests')]
+
+
+def pin_c16_wiring():
+    from . import shape_pin
+    return shape_pin.check_pin('c16_wiring', PIN_WIRING)
+
+
+GENERATORS = {'lookup': gen_lookup, 'pin_c16_loader': pin_c16_loader, 'pin_c16_env': pin_c16_env, 'pin_c16_wiring': pin_c16_wiring}
